@@ -221,14 +221,16 @@ class BaseCurve(Intface_BaseCurve):
         othercopy.degree = maxdegree
         npts0 = selfcopy.npts
         npts1 = othercopy.npts
-        newknotvector = [0] * (maxdegree + npts0 + npts1 + 1)
-        newknotvector[:npts0] = selfcopy.knotvector[:npts0]
-        newknotvector[npts0:] = othercopy.knotvector[1:]
+        # The junction knot gets multiplicity degree+1, knot_clean reduces it
+        newknotvector = list(selfcopy.knotvector[:npts0]) + list(othercopy.knotvector)
         newknotvector = KnotVector(newknotvector)
-        newctrlpoints = [0] * (npts0 + npts1 - 1)
-        newctrlpoints[:npts0] = selfcopy.ctrlpoints[:npts0]
-        newctrlpoints[npts0:] = othercopy.ctrlpoints[1:]
-        newcurve = self.__class__(newknotvector, newctrlpoints)
+        newctrlpoints = list(selfcopy.ctrlpoints) + list(othercopy.ctrlpoints)
+        newweights = None
+        if selfcopy.weights is not None or othercopy.weights is not None:
+            weights0 = selfcopy.weights if selfcopy.weights else [1] * npts0
+            weights1 = othercopy.weights if othercopy.weights else [1] * npts1
+            newweights = list(weights0) + list(weights1)
+        newcurve = self.__class__(newknotvector, newctrlpoints, newweights)
         newcurve.knot_clean([umaxleft])
         return newcurve
 
